@@ -21,11 +21,13 @@ BIN_UNIVERSES = {
     "BC": ["00", "80", "40", "20", "10", "08", "04", "02", "01"],
     # keys longer than 32 bytes (kv nodes with a key path of more than 256 bits)
     "BXL": ["33" * 33, "33" * 32 + "34", "44" * 40],
+    # a right comb below the one-byte prefix 11: from the branch where 11 ends, the all-right path reaches a leaf through branches only
+    "BRC": ["11ff", "11fe", "11fc", "11f8", "11f0", "11e0", "11c0", "1180", "1100"],
 }
-BIN_PROBES = ["000000", "40", "0100", "ffff", "02", "fe", "008000"]
+BIN_PROBES = ["000000", "40", "0100", "ffff", "02", "fe", "008000", "11"]
 BIN_VALUES = {"a": b"a", "bb": b"bb", "c33": b"c" * 33,
               # values that look like the trie's own encodings: a branch node, a kv node, the blank hash
-              "br65": b"\x01" + b"B" * 64, "kv34": b"\x00\x10" + b"K" * 32,
+              "br65": b"\x01" + b"B" * 64, "kv34": b"\x00\x10" + b"K" * 32, "v02": b"\x02\x02zz",
               "blank": bytes.fromhex("c5d2460186f7233c927e7db2dcc703c0e500b653ca82273b7bfad8045d85a470")}
 
 
@@ -54,7 +56,7 @@ class BinSys:
         self.keys = [bytes.fromhex(h) for h in BIN_UNIVERSES[universe]]
         self.probes = self.keys + [bytes.fromhex(h) for h in BIN_PROBES if bytes.fromhex(h) not in self.keys]
         fill = 0 if seed == 0 else (seed * 7919) % 90
-        self.vals = [BIN_VALUES[v] if v in ("br65", "kv34", "blank") else bytes((c + fill) % 256 or 1 for c in BIN_VALUES[v]) for v in values]
+        self.vals = [BIN_VALUES[v] if v in ("br65", "kv34", "blank", "v02") else bytes((c + fill) % 256 or 1 for c in BIN_VALUES[v]) for v in values]
         self.props = set(props)
         self.forms = tuple(forms)
         self.stats = collections.Counter()
